@@ -1,6 +1,7 @@
 import ExprModel.Gen.ParserTables
 import ExprModel.Proofs.ParsePrintTop
 import ExprModel.Proofs.ParserMono
+import ExprModel.Proofs.ParserFuel
 import ExprModel.Syntax.ParserNum
 import ExprModel.Props.C12
 /-
@@ -109,19 +110,33 @@ theorem parse_mono (cfg : Cfg) {f f' : Nat} (hf : f ≤ f') (ts : List Token) (h
 /-- The same for every parser function (`Le a b`: `a` is out of fuel or equal to `b`). -/
 theorem parse_mono_all (cfg : Cfg) (f : Nat) : MonoAt cfg f := monoAt cfg f
 
-/-! ### Goals that are stated but not proved in this round -/
+/-- **Termination / fuel sufficiency**: with the fuel `fuelFor ts = 12·|ts| + 16` (call depth linear in the
+    number of tokens) the model never runs out of fuel, on any token list whatsoever — the parser model
+    "never hangs", and the fuel-free `parse` below is a total function that always reports a tree or an error. -/
+theorem parse_fuel_sufficient (cfg : Cfg) (ts : List Token) : parseFuel cfg (fuelFor ts) ts ≠ .outOfFuel :=
+  parseFuel_sufficient cfg ts
 
-/-- Termination with a bound linear in the number of tokens (the model "never hangs"): the fuel the
-    driver uses is always enough.  Checked on every correspondence input (the driver never answers
-    `(fuel)`), not proved. -/
-def parse_fuel_sufficient_goal : Prop :=
-  ∀ (cfg : Cfg) (ts : List Token), parseFuel cfg (fuelFor ts) ts ≠ .outOfFuel
+/-- The round trip for the fuel-free parser `parse` (the function the driver runs). -/
+theorem parse_print_total {cfg : Cfg} {sh : NumShow} (hs : Setting cfg sh) (t : Node) (hc : canon cfg 0 t = true)
+    (pc : ParenChoice) (l : Loc) : parse cfg (printEof cfg sh pc l t) = .ok t := by
+  obtain ⟨f0, h⟩ := parse_print hs t hc pc l
+  have hsuf := parse_fuel_sufficient cfg (printEof cfg sh pc l t)
+  have hm := parse_mono cfg (Nat.le_max_right f0 (fuelFor (printEof cfg sh pc l t))) _ hsuf
+  rw [h _ (Nat.le_max_left _ _)] at hm
+  unfold parse
+  rw [← hm]
 
-/-- Rejection side: whatever the parser accepts is the printed text of its result up to redundant
-    parentheses, trailing commas and alternative spellings (`?:`, `.x`, identifier/number map keys). -/
-def parse_sound_goal : Prop :=
-  ∀ (cfg : Cfg) (sh : NumShow), Setting cfg sh → ∀ (ts : List Token) (f : Nat) (t : Node),
-    parseFuel cfg f ts = .ok t → canon cfg 0 t = true
+/-! ### Goal that is stated but not proved in this round -/
+
+/-- Rejection side (the image of the parser): every tree the parser returns is canonical.  Together with
+    `parse_print` this says that the accepted token lists are exactly the printings of canonical trees, up to
+    redundant parentheses, trailing commas and the alternative spellings (`c ?: b`, `.x` for `#.x`,
+    identifier/number map keys).  Not proved; instead the harness compares the real parser with an independent
+    stratified reference grammar (accept/reject and tree) on every explored token sequence. -/
+def parse_image_canonical_goal : Prop :=
+  ∀ (cfg : Cfg), cfg.tb = Gen.parserTables →
+    (∀ s v, cfg.num s = some (.int v) → 0 ≤ v ∧ v < 9223372036854775808) →
+    ∀ (ts : List Token) (f : Nat) (t : Node), parseFuel cfg f ts = .ok t → canon cfg 0 t = true
 
 /-! ### Non-vacuity and the witness of the one deviation found -/
 
